@@ -66,8 +66,15 @@ func runC19large(cfg config, rep *hx.Report) {
 			}
 			sf.WriteAt(mk, off)
 			// what a 32-bit offset would read instead
-			sf.WriteAt(marker(0x11, k), int64(uint32(off)))
-			sf.WriteAt(marker(0x33, k), int64(uint32(k))*1) // and an index-sized alias
+			// (aliases that coincide with the chunk itself or would extend the file are left out)
+			for _, al := range []struct {
+				tag byte
+				at  int64
+			}{{0x11, int64(uint32(off))}, {0x33, int64(uint32(k))}} { // the second: an index-sized alias
+				if al.at+48 <= first*int64(c.cs) {
+					sf.WriteAt(marker(al.tag, k), al.at)
+				}
+			}
 		}
 		sf.Close()
 		m, err := manifest.Scan(src)
